@@ -1,9 +1,24 @@
-"""Probe: pure-Python protobuf message model generated from descriptors."""
+"""symproto: pure-Python model of the protobuf message API that google/vizier uses (the `sym` back end of env/pbgen).
+
+Why: upb messages are C objects; a symbolic value assigned to a field is realised on the spot, so conditions such as
+`if proto.default_value.value:` would only be tried on solver-picked samples.  These classes are generated from the same
+descriptors pbgen parses out of /repo's .proto files and keep field values as ordinary Python objects (symbolic or not).
+
+Modelled: kwargs construction (copying message arguments), proto3 defaults, auto-vivifying sub-messages that mark presence
+and select the oneof on first mutation, `optional` presence, repeated containers, ==, deepcopy, CopyFrom, MergeFrom,
+ClearField, HasField, WhichOneof, SerializeToString/FromString (opaque snapshot), enum wrappers, and the well-known types
+Any, Timestamp, Duration.  Anything else raises SymprotoUnsupported (a harness error, never a verdict).
+It is a MODEL: every explored path is re-executed natively on the real upb runtime by the driver (engine/run_check.py).
+"""
 import copy
+import datetime
+
 from google.protobuf import descriptor as _d
+from google.protobuf import message_factory as _mf
 from google.protobuf.message import Message as _PBMessage
 
 FD = _d.FieldDescriptor
+_INT_TYPES = (FD.CPPTYPE_INT32, FD.CPPTYPE_INT64, FD.CPPTYPE_UINT32, FD.CPPTYPE_UINT64)
 _SCALAR_DEFAULT = {
     FD.CPPTYPE_INT32: 0, FD.CPPTYPE_INT64: 0, FD.CPPTYPE_UINT32: 0, FD.CPPTYPE_UINT64: 0,
     FD.CPPTYPE_DOUBLE: 0.0, FD.CPPTYPE_FLOAT: 0.0, FD.CPPTYPE_BOOL: False, FD.CPPTYPE_ENUM: 0,
@@ -11,12 +26,85 @@ _SCALAR_DEFAULT = {
 _CLASSES = {}
 
 
+class SymprotoUnsupported(Exception):
+  pass
+
+
+def _default(f):
+  if f.cpp_type == FD.CPPTYPE_STRING:
+    return b'' if f.type == FD.TYPE_BYTES else ''
+  return _SCALAR_DEFAULT[f.cpp_type]
+
+
+def _has_presence(f):
+  return f.cpp_type == FD.CPPTYPE_MESSAGE or f.containing_oneof is not None
+
+
 class Snapshot:
+  """Opaque, immutable stand-in for serialized bytes (vizier never inspects them)."""
+
   def __init__(self, msg):
     self.msg = copy.deepcopy(msg)
 
+  def __eq__(self, other):
+    if isinstance(other, Snapshot):
+      return self.msg == other.msg
+    if isinstance(other, (bytes, bytearray)):
+      return len(other) == 0 and not self.msg._canon()
+    return NotImplemented
+
+  def __ne__(self, other):
+    r = self.__eq__(other)
+    return r if r is NotImplemented else not r
+
+  def __hash__(self):
+    return 0
+
+  def __len__(self):
+    return 1 if self.msg._canon() else 0
+
+  def __bool__(self):
+    return bool(self.msg._canon())
+
+  def __repr__(self):
+    return '<serialized %s>' % type(self.msg).__name__
+
+
+def _coerce(f, value):
+  """Scalar coercions protobuf performs on assignment (int -> float for double fields); type errors as upb raises them."""
+  ct = f.cpp_type
+  if ct in (FD.CPPTYPE_DOUBLE, FD.CPPTYPE_FLOAT):
+    if isinstance(value, bool):
+      return 1.0 if value else 0.0
+    if isinstance(value, int):
+      return float(value)
+    if not isinstance(value, float):
+      raise TypeError('%r has type %s, but expected one of: int, float' % (value, type(value).__name__))
+    return value
+  if ct in _INT_TYPES or ct == FD.CPPTYPE_ENUM:
+    if isinstance(value, bool):
+      return 1 if value else 0
+    if not isinstance(value, int):
+      raise TypeError('%s has type %s, but expected one of: int' % ('<value>', type(value).__name__))
+    return value
+  if ct == FD.CPPTYPE_BOOL:
+    if not isinstance(value, (bool, int)):
+      raise TypeError('expected bool')
+    return True if value else False
+  if ct == FD.CPPTYPE_STRING:
+    if f.type == FD.TYPE_BYTES:
+      if not isinstance(value, (bytes, bytearray, Snapshot)):
+        raise TypeError('expected bytes')
+      return value
+    if not isinstance(value, str):
+      raise TypeError('bad argument type for built-in operation')
+    return value
+  raise SymprotoUnsupported('scalar type %s' % ct)
+
 
 class Repeated(list):
+  """Repeated field container (scalar or composite)."""
+
   def __init__(self, owner, field, cls):
     super().__init__()
     self._owner, self._field, self._cls = owner, field, cls
@@ -25,24 +113,58 @@ class Repeated(list):
     if self._owner is not None:
       self._owner._mark()
 
+  def _conv(self, x):
+    if self._cls is not None:
+      if not isinstance(x, _PBMessage):
+        raise TypeError('expected a message for repeated field %s' % self._field.name)
+      c = self._cls()
+      c.CopyFrom(x)
+      return c
+    return _coerce(self._field, x)
+
   def add(self, **kw):
+    if self._cls is None:
+      raise AttributeError('add() on a repeated scalar field')
     m = self._cls(**kw)
     list.append(self, m)
     self._touch()
     return m
 
   def append(self, x):
-    list.append(self, x)
+    list.append(self, self._conv(x))
     self._touch()
 
   def extend(self, xs):
-    list.extend(self, [copy.deepcopy(x) if isinstance(x, SymMessage) else x for x in xs])
+    list.extend(self, [self._conv(x) for x in xs])
+    self._touch()
+
+  def insert(self, i, x):
+    list.insert(self, i, self._conv(x))
+    self._touch()
+
+  def MergeFrom(self, other):
+    self.extend(other)
+
+  def __setitem__(self, key, value):
+    if isinstance(key, slice):
+      list.__setitem__(self, key, [self._conv(x) for x in value])
+    else:
+      if self._cls is not None:
+        raise TypeError('item assignment on a repeated composite field')
+      list.__setitem__(self, key, self._conv(value))
     self._touch()
 
   def __deepcopy__(self, memo):
     r = Repeated(None, self._field, self._cls)
     list.extend(r, [copy.deepcopy(x, memo) for x in self])
     return r
+
+  def __eq__(self, other):
+    if isinstance(other, Repeated) or isinstance(other, list):
+      return list.__eq__(self, other)
+    return NotImplemented
+
+  __hash__ = None
 
 
 class SymMessage(_PBMessage):
@@ -52,7 +174,11 @@ class SymMessage(_PBMessage):
     object.__setattr__(self, '_values', {})
     object.__setattr__(self, '_parent', None)
     for k, v in kw.items():
-      f = self._desc.fields_by_name[k]
+      f = self._desc.fields_by_name.get(k)
+      if f is None:
+        raise ValueError('Protocol message %s has no "%s" field.' % (self._desc.name, k))
+      if v is None:
+        continue
       if f.is_repeated:
         getattr(self, k).extend(v)
       elif f.cpp_type == FD.CPPTYPE_MESSAGE:
@@ -60,7 +186,7 @@ class SymMessage(_PBMessage):
       else:
         setattr(self, k, v)
 
-  # -- presence bookkeeping
+  # -- presence bookkeeping -------------------------------------------------------------------------------------
   def _mark(self):
     p = self._parent
     if p is not None:
@@ -77,71 +203,111 @@ class SymMessage(_PBMessage):
     self._mark()
 
   def __getattr__(self, name):
+    if name.startswith('__'):
+      raise AttributeError(name)
     f = self._desc.fields_by_name.get(name)
     if f is None:
-      raise AttributeError(name)
+      raise AttributeError('%s has no field %s' % (self._desc.name, name))
     vals = self._values
     if name in vals:
       return vals[name]
     if f.is_repeated:
       cls = _class_for(f.message_type) if f.cpp_type == FD.CPPTYPE_MESSAGE else None
       r = Repeated(self, f, cls)
-      vals[name] = r
+      vals[name] = r            # an empty repeated field is indistinguishable from an absent one
       return r
     if f.cpp_type == FD.CPPTYPE_MESSAGE:
       child = _class_for(f.message_type)()
       object.__setattr__(child, '_parent', (self, name))
-      return child  # not stored until mutated
-    if f.cpp_type == FD.CPPTYPE_STRING:
-      return b'' if f.type == FD.TYPE_BYTES else ''
-    return _SCALAR_DEFAULT[f.cpp_type]
+      return child              # not stored until mutated
+    return _default(f)
 
   def __setattr__(self, name, value):
     f = self._desc.fields_by_name.get(name)
     if f is None:
-      raise AttributeError(name)
+      raise AttributeError('Assignment not allowed (no field "%s" in protocol message object).' % name)
     if f.is_repeated or f.cpp_type == FD.CPPTYPE_MESSAGE:
-      raise AttributeError('Assignment not allowed to composite field ' + name)
-    if f.cpp_type in (FD.CPPTYPE_DOUBLE, FD.CPPTYPE_FLOAT) and isinstance(value, int) and not isinstance(value, bool):
-      value = float(value)
-    self._set_present(name, value)
+      raise AttributeError('Assignment not allowed to composite field "%s" in protocol message object.' % name)
+    self._set_present(name, _coerce(f, value))
 
   def HasField(self, name):
     if name in self._desc.oneofs_by_name:
       return self.WhichOneof(name) is not None
-    f = self._desc.fields_by_name[name]
+    f = self._desc.fields_by_name.get(name)
+    if f is None:
+      raise ValueError('Protocol message %s has no field %s.' % (self._desc.name, name))
     if f.is_repeated:
-      raise ValueError('repeated')
-    if f.cpp_type != FD.CPPTYPE_MESSAGE and f.containing_oneof is None:
-      raise ValueError('no presence for ' + name)
+      raise ValueError('Protocol message has no singular "%s" field.' % name)
+    if not _has_presence(f):
+      raise ValueError('Can\'t test non-optional, non-submessage field "%s" for presence in proto3.' % name)
     return name in self._values
 
   def WhichOneof(self, oneof):
-    for f in self._desc.oneofs_by_name[oneof].fields:
+    o = self._desc.oneofs_by_name.get(oneof)
+    if o is None:
+      raise ValueError('Protocol message has no oneof "%s" field.' % oneof)
+    for f in o.fields:
       if f.name in self._values:
         return f.name
     return None
 
   def ClearField(self, name):
-    self._values.pop(name, None)
+    if name in self._desc.oneofs_by_name:
+      w = self.WhichOneof(name)
+      if w:
+        self._values.pop(w, None)
+      return
+    if name not in self._desc.fields_by_name:
+      raise ValueError('Protocol message has no "%s" field.' % name)
+    old = self._values.pop(name, None)
+    if isinstance(old, Repeated):
+      object.__setattr__(old, '_owner', None)
+    elif isinstance(old, SymMessage):
+      object.__setattr__(old, '_parent', None)
+
+  def Clear(self):
+    self._values.clear()
+    self._mark()
 
   def CopyFrom(self, other):
     if other is self:
       return
-    self._values.clear()
     if not isinstance(other, SymMessage):
-      for f, v in other.ListFields():
-        self._values[f.name] = v
-      self._mark()
-      return
+      other = from_upb(other)
+    if other._desc.full_name != self._desc.full_name:
+      raise TypeError('Parameter to CopyFrom() must be instance of same class: expected %s got %s.' % (
+          self._desc.full_name, other._desc.full_name))
+    self._values.clear()
     for k, v in other._values.items():
-      v2 = copy.deepcopy(v)
-      if isinstance(v2, SymMessage):
-        object.__setattr__(v2, '_parent', (self, k))
-      self._values[k] = v2
+      self._values[k] = self._adopt(k, copy.deepcopy(v))
+    self._mark()
+
+  def _adopt(self, k, v2):
+    if isinstance(v2, SymMessage):
+      object.__setattr__(v2, '_parent', (self, k))
+    elif isinstance(v2, Repeated):
+      object.__setattr__(v2, '_owner', self)
+    return v2
+
+  def MergeFrom(self, other):
+    if not isinstance(other, SymMessage):
+      other = from_upb(other)
+    for f in self._desc.fields:
+      if f.name not in other._values:
+        continue
+      v = other._values[f.name]
+      if f.is_repeated:
+        getattr(self, f.name).extend(v)
+      elif f.cpp_type == FD.CPPTYPE_MESSAGE:
+        getattr(self, f.name).MergeFrom(v)
+        self._set_present(f.name, getattr(self, f.name)) if f.name not in self._values else None
+      else:
+        if f.containing_oneof is not None or not _is_default(f, v):
+          self._set_present(f.name, v)
     self._mark()
 
   def _canon(self):
+    """Canonical content: what protobuf equality compares (set fields; default-valued plain scalars count as unset)."""
     out = {}
     for f in self._desc.fields:
       v = self._values.get(f.name)
@@ -152,41 +318,91 @@ class SymMessage(_PBMessage):
           out[f.name] = [x._canon() if isinstance(x, SymMessage) else x for x in v]
       elif isinstance(v, SymMessage):
         out[f.name] = v._canon()
-      elif f.containing_oneof is not None or v != (_SCALAR_DEFAULT.get(f.cpp_type, '')):
+      elif f.containing_oneof is not None or not _is_default(f, v):
         out[f.name] = v
     return out
 
   def __eq__(self, other):
-    return type(other) is type(self) and self._canon() == other._canon()
+    if not isinstance(other, SymMessage):
+      if isinstance(other, _PBMessage):
+        return self == from_upb(other)
+      return NotImplemented
+    return other._desc.full_name == self._desc.full_name and self._canon() == other._canon()
 
   def __ne__(self, other):
-    return not self == other
+    r = self.__eq__(other)
+    return r if r is NotImplemented else not r
 
   __hash__ = None
 
   def __deepcopy__(self, memo):
     new = type(self)()
     for k, v in self._values.items():
-      v2 = copy.deepcopy(v, memo)
-      if isinstance(v2, SymMessage):
-        object.__setattr__(v2, '_parent', (new, k))
-      new._values[k] = v2
+      new._values[k] = new._adopt(k, copy.deepcopy(v, memo))
     return new
 
   def SerializeToString(self, **kw):
     return Snapshot(self)
 
+  SerializePartialToString = SerializeToString
+
+  def ByteSize(self):
+    return 1 if self._canon() else 0
+
   @classmethod
   def FromString(cls, s):
-    return copy.deepcopy(s.msg)
+    if isinstance(s, Snapshot):
+      if s.msg._desc.full_name != cls._desc.full_name:
+        raise SymprotoUnsupported('FromString: %s parsed as %s' % (s.msg._desc.full_name, cls._desc.full_name))
+      return copy.deepcopy(s.msg)
+    if isinstance(s, (bytes, bytearray)):
+      if len(s) == 0:
+        return cls()
+      real = _mf.GetMessageClass(cls._desc).FromString(bytes(s))
+      return from_upb(real)
+    raise TypeError('FromString: %r' % type(s))
+
+  def ParseFromString(self, s):
+    self.CopyFrom(type(self).FromString(s))
+
+  def ListFields(self):
+    out = []
+    for f in self._desc.fields:
+      if f.name in self._values:
+        v = self._values[f.name]
+        if f.is_repeated and not len(v):
+          continue
+        if not f.is_repeated and not _has_presence(f) and _is_default(f, v):
+          continue
+        out.append((f, v))
+    return out
+
+  def IsInitialized(self):
+    return True
 
   def __repr__(self):
-    return '%s(%r)' % (self._desc.name, self._canon())
+    return '<symproto %s>' % self._desc.name
+
+  __str__ = __repr__
+
+  def __format__(self, spec):
+    return '<symproto %s>' % self._desc.name
+
+
+def _is_default(f, v):
+  d = _default(f)
+  if f.cpp_type == FD.CPPTYPE_STRING:
+    if isinstance(v, Snapshot):
+      return not bool(v)
+    return len(v) == 0
+  return v == d
 
 
 class _EnumWrapper:
+
   def __init__(self, ed):
     self._ed = ed
+    self.DESCRIPTOR = ed
     for v in ed.values:
       setattr(self, v.name, v.number)
 
@@ -194,25 +410,126 @@ class _EnumWrapper:
     for v in self._ed.values:
       if number == v.number:
         return v.name
-    raise ValueError('Enum has no name defined for value')
+    raise ValueError('Enum %s has no name defined for value' % self._ed.name)
 
   def Value(self, name):
+    if name not in self._ed.values_by_name:
+      raise ValueError('Enum %s has no value defined for name %r' % (self._ed.name, name))
     return self._ed.values_by_name[name].number
+
+  def keys(self):
+    return [v.name for v in self._ed.values]
+
+  def values(self):
+    return [v.number for v in self._ed.values]
+
+  def items(self):
+    return [(v.name, v.number) for v in self._ed.values]
+
+
+# ---- well-known types -----------------------------------------------------------------------------------------
+class _AnyMixin:
+  """google.protobuf.Any: `value` holds a Snapshot of the packed message (bytes are never inspected by vizier)."""
+
+  def Pack(self, msg, type_url_prefix='type.googleapis.com/', deterministic=None):
+    if not isinstance(msg, SymMessage):
+      msg = from_upb(msg)
+    self.type_url = type_url_prefix + msg._desc.full_name
+    self.value = Snapshot(msg)
+
+  def Unpack(self, msg):
+    if not self.Is(msg.DESCRIPTOR):
+      return False
+    v = self._values.get('value')
+    if isinstance(v, Snapshot):
+      src = v.msg
+    elif v:
+      src = from_upb(_mf.GetMessageClass(msg.DESCRIPTOR).FromString(bytes(v)))
+    else:
+      src = _class_for(msg.DESCRIPTOR)()
+    if isinstance(msg, SymMessage):
+      msg.CopyFrom(src)
+    else:
+      msg.CopyFrom(to_upb(src))
+    return True
+
+  def TypeName(self):
+    return self.type_url.split('/')[-1]
+
+  def Is(self, descriptor):
+    return '/' in self.type_url and self.TypeName() == descriptor.full_name
+
+
+_EPOCH = datetime.datetime(1970, 1, 1)
+
+
+class _TimestampMixin:
+
+  def GetCurrentTime(self):
+    import time
+    self.FromSeconds(int(time.time()))
+
+  def FromSeconds(self, seconds):
+    self.seconds = seconds
+    self.nanos = 0
+
+  def ToSeconds(self):
+    return self.seconds
+
+  def FromDatetime(self, dt):
+    delta = dt.replace(tzinfo=None) - _EPOCH if dt.tzinfo is None else dt.astimezone(datetime.timezone.utc).replace(tzinfo=None) - _EPOCH
+    self.seconds = delta.days * 86400 + delta.seconds
+    self.nanos = delta.microseconds * 1000
+
+  def ToDatetime(self, tzinfo=None):
+    return _EPOCH + datetime.timedelta(seconds=self.seconds, microseconds=self.nanos // 1000)
+
+
+class _DurationMixin:
+
+  def ToTimedelta(self):
+    return datetime.timedelta(seconds=self.seconds, microseconds=self.nanos // 1000)
+
+  def FromTimedelta(self, td):
+    self.seconds = td.days * 86400 + td.seconds
+    self.nanos = td.microseconds * 1000
+
+  def ToSeconds(self):
+    return self.seconds
+
+  def FromSeconds(self, s):
+    self.seconds = s
+    self.nanos = 0
+
+
+_MIXINS = {
+    'google.protobuf.Any': _AnyMixin,
+    'google.protobuf.Timestamp': _TimestampMixin,
+    'google.protobuf.Duration': _DurationMixin,
+}
 
 
 def _class_for(md):
   cls = _CLASSES.get(md.full_name)
   if cls is None:
+    bases = (SymMessage,)
+    if md.full_name in _MIXINS:
+      bases = (_MIXINS[md.full_name], SymMessage)
     ns = {'_desc': md, 'DESCRIPTOR': md}
-    cls = type(md.name, (SymMessage,), ns)
+    cls = type(md.name, bases, ns)
     _CLASSES[md.full_name] = cls
     for nested in md.nested_types:
-      setattr(cls, nested.name, _class_for(nested))
+      type.__setattr__(cls, nested.name, _class_for(nested))
     for ed in md.enum_types:
-      setattr(cls, ed.name, _EnumWrapper(ed))
+      type.__setattr__(cls, ed.name, _EnumWrapper(ed))
       for v in ed.values:
-        setattr(cls, v.name, v.number)
+        type.__setattr__(cls, v.name, v.number)
   return cls
+
+
+def class_for_name(full_name):
+  from google.protobuf import descriptor_pool
+  return _class_for(descriptor_pool.Default().FindMessageTypeByName(full_name))
 
 
 def build_module(mod, file_desc):
@@ -220,3 +537,91 @@ def build_module(mod, file_desc):
     setattr(mod, name, _class_for(md))
   for name, ed in file_desc.enum_types_by_name.items():
     setattr(mod, name, _EnumWrapper(ed))
+    for v in ed.values:
+      setattr(mod, v.name, v.number)
+
+
+# ---- conversions to / from the real runtime (validation, replay, mixing with real well-known messages) ---------
+def from_upb(real):
+  cls = _class_for(real.DESCRIPTOR)
+  new = cls()
+  for f, v in real.ListFields():
+    if f.is_repeated:
+      rep = getattr(new, f.name)
+      if f.cpp_type == FD.CPPTYPE_MESSAGE:
+        list.extend(rep, [new._adopt(f.name, from_upb(x)) for x in v])
+      else:
+        list.extend(rep, list(v))
+    elif f.cpp_type == FD.CPPTYPE_MESSAGE:
+      new._values[f.name] = new._adopt(f.name, from_upb(v))
+    else:
+      new._values[f.name] = v
+  if real.DESCRIPTOR.full_name == 'google.protobuf.Any' and real.value:
+    try:
+      from google.protobuf import descriptor_pool
+      md = descriptor_pool.Default().FindMessageTypeByName(real.type_url.split('/')[-1])
+      new._values['value'] = Snapshot(from_upb(_mf.GetMessageClass(md).FromString(real.value)))
+    except KeyError:
+      pass
+  return new
+
+
+def to_upb(sym):
+  real = _mf.GetMessageClass(sym._desc)()
+  for f in sym._desc.fields:
+    if f.name not in sym._values:
+      continue
+    v = sym._values[f.name]
+    if f.is_repeated:
+      tgt = getattr(real, f.name)
+      for x in v:
+        if isinstance(x, SymMessage):
+          tgt.add().CopyFrom(to_upb(x))
+        else:
+          tgt.append(x)
+    elif isinstance(v, SymMessage):
+      getattr(real, f.name).CopyFrom(to_upb(v))
+    elif isinstance(v, Snapshot):
+      setattr(real, f.name, to_upb(v.msg).SerializeToString(deterministic=True))
+    else:
+      setattr(real, f.name, v)
+  return real
+
+
+class _Namespace:
+  pass
+
+
+def wkt_module(proto_file, names):
+  """A module-like namespace with sym classes for a well-known .proto file (e.g. any_pb2 -> .Any)."""
+  from google.protobuf import descriptor_pool
+  ns = _Namespace()
+  fd = descriptor_pool.Default().FindFileByName(proto_file)
+  for n in names:
+    setattr(ns, n, _class_for(fd.message_types_by_name[n]))
+  ns.DESCRIPTOR = fd
+  return ns
+
+
+def install_wkt(*modules):
+  """Rebinds the google.protobuf / google.longrunning / google.rpc module globals of the given vizier modules to sym
+  classes (harness-side rebinding; /repo is not touched)."""
+  import importlib
+  table = {
+      'any_pb2': ('google/protobuf/any.proto', ['Any'], 'google.protobuf.any_pb2'),
+      'timestamp_pb2': ('google/protobuf/timestamp.proto', ['Timestamp'], 'google.protobuf.timestamp_pb2'),
+      'duration_pb2': ('google/protobuf/duration.proto', ['Duration'], 'google.protobuf.duration_pb2'),
+      'empty_pb2': ('google/protobuf/empty.proto', ['Empty'], 'google.protobuf.empty_pb2'),
+      'operations_pb2': ('google/longrunning/operations.proto', ['Operation', 'GetOperationRequest'],
+                         'google.longrunning.operations_pb2'),
+      'status_pb2': ('google/rpc/status.proto', ['Status'], 'google.rpc.status_pb2'),
+  }
+  cache = {}
+  for m in modules:
+    for attr, (pf, names, real) in table.items():
+      if hasattr(m, attr):
+        if attr not in cache:
+          importlib.import_module(real)
+          cache[attr] = wkt_module(pf, names)
+        setattr(m, attr, cache[attr])
+  return cache
